@@ -982,6 +982,9 @@ func (c PrepareCallInstr) execute(env *Zlisp) error {
 		case *SexpFunction:
 			if !g.user {
 				nargs := c.nargs
+				if err := env.resolveDotArgsOnStack(nargs); err != nil {
+					return err
+				}
 				if err := env.prepareLazyCallArgs(g, &nargs); err != nil {
 					return err
 				}
@@ -995,6 +998,9 @@ func (c PrepareCallInstr) execute(env *Zlisp) error {
 	case *SexpFunction:
 		if !f.user {
 			nargs := c.nargs
+			if err := env.resolveDotArgsOnStack(nargs); err != nil {
+				return err
+			}
 			if err := env.prepareLazyCallArgs(f, &nargs); err != nil {
 				return err
 			}
